@@ -222,7 +222,7 @@ def make_case(rnd):
         # an @name rule and keywords
         keywords = rnd.sample(['a', 'b', 'ab', 'c'], 2)
         rules = rules + [('ident', ('pat', '[a-c]+'))]
-        ruleinfo['ident'] = dict(decorators=('name',))
+        ruleinfo['ident'] = dict(decorators=(rnd.choice(['name', 'name', 'isname']),))     # (both spellings are in the grammar language)
         n0, x0 = rules[0]
         rules[0] = (n0, ('alt', (x0, ('call', 'ident'))))
     if rnd.random() < 0.15:
@@ -240,6 +240,11 @@ def make_case(rnd):
         n, x = rules[-1]
         rules = rules[:-1] + [('bs', gen.gen_exp(rnd, gen.GenCfg(), 1, [], []))] + [rules[-1]]
         ruleinfo.setdefault(n, {})['base'] = 'bs'
+        if rnd.random() < 0.5:
+            # repeated inheritance: child < bs2 < bs (each link adds its own part after everything inherited)
+            rules = rules[:-1] + [('bs2', gen.gen_exp(rnd, gen.GenCfg(), 1, [], []))] + [rules[-1]]
+            ruleinfo['bs2'] = dict(base='bs')
+            ruleinfo[n]['base'] = 'bs2'
     if rnd.random() < 0.15 and len(rules) >= 2:
         # a rule include: >rule splices the right-hand side of an earlier rule
         n, x = rules[-1]
